@@ -44,6 +44,18 @@ Definition sp_step (pows : list N) :=
       else if maxp <? bp then (present', blocks', fst e, bp)
       else (present', blocks', maxh, maxp).
 
+Lemma signer_list_cons e pm : signer_list (e :: pm) = map fst (snd e) ++ signer_list pm.
+Proof. reflexivity. Qed.
+
+Lemma sp_step_eq pows present b maxh maxp e :
+  sp_step pows (present, b, maxh, maxp) e =
+  (present ++ map fst (snd e), pm_set b (fst e) (proof_power pows (snd e)),
+   fst (mv_step pows (maxh, maxp) e), snd (mv_step pows (maxh, maxp) e)).
+Proof.
+  unfold sp_step, mv_step. destruct (proof_power pows (snd e) =? maxp); [reflexivity|].
+  destruct (maxp <? proof_power pows (snd e)); reflexivity.
+Qed.
+
 Lemma sp_fold pows pm : forall present b maxh maxp,
   fold_left (sp_step pows) pm (present, b, maxh, maxp) =
   (present ++ signer_list pm,
@@ -51,13 +63,11 @@ Lemma sp_fold pows pm : forall present b maxh maxp,
    fst (fold_left (mv_step pows) pm (maxh, maxp)),
    snd (fold_left (mv_step pows) pm (maxh, maxp))).
 Proof.
-  induction pm as [|e pm IH]; intros present b maxh maxp; cbn [fold_left signer_list flat_map].
-  - rewrite app_nil_r. reflexivity.
-  - unfold sp_step at 2. unfold mv_step at 2 4. cbv zeta.
-    fold (signer_list pm).
-    destruct (proof_power pows (snd e) =? maxp).
-    + rewrite IH, app_assoc. reflexivity.
-    + destruct (maxp <? proof_power pows (snd e)); rewrite IH, app_assoc; reflexivity.
+  induction pm as [|e pm IH]; intros present b maxh maxp.
+  - cbn [fold_left signer_list flat_map fst snd]. rewrite app_nil_r. reflexivity.
+  - cbn [fold_left]. rewrite sp_step_eq, signer_list_cons.
+    destruct (mv_step pows (maxh, maxp) e) as [mh mp]. cbn [fst snd].
+    rewrite IH, app_assoc. reflexivity.
 Qed.
 
 Lemma set_powers_eq pows pm :
@@ -99,10 +109,16 @@ Proof. unfold sum_set_precommits. rewrite set_powers_eq. reflexivity. Qed.
 
 Lemma tok_set_pv v x : tok v ->
   tok (with_sum (with_pv v x) (sum_set_prevotes (v_sum (with_pv v x)) (vs_pows (v_vals (with_pv v x))) x)).
-Proof. unfold tok. cbn. intros ->. apply sum_set_prevotes_of. Qed.
+Proof.
+  unfold tok. intros H. cbn [with_sum with_pv v_sum v_vals v_pv v_pc]. rewrite H.
+  apply sum_set_prevotes_of.
+Qed.
 Lemma tok_set_pc v x : tok v ->
   tok (with_sum (with_pc v x) (sum_set_precommits (v_sum (with_pc v x)) (vs_pows (v_vals (with_pc v x))) x)).
-Proof. unfold tok. cbn. intros ->. apply sum_set_precommits_of. Qed.
+Proof.
+  unfold tok. intros H. cbn [with_sum with_pc v_sum v_vals v_pv v_pc]. rewrite H.
+  apply sum_set_precommits_of.
+Qed.
 
 (** get_view / put_view (any id other than Voting / Committing addresses the next-round view) *)
 Lemma get_view_tok s vid : vid <> ViewIDCommitting -> tinv s -> tok (get_view s vid).
@@ -116,7 +132,7 @@ Lemma put_view_tinv s vid v : tinv s -> (vid <> ViewIDCommitting -> tok v) -> ti
 Proof.
   intros [Hv Hn] H. unfold put_view.
   destruct (N.eqb_spec vid ViewIDVoting) as [E|E].
-  - split; cbn; [apply H; rewrite E; discriminate|exact Hn].
+  - split; cbn; [apply H; rewrite E; cbv; discriminate|exact Hn].
   - destruct (N.eqb_spec vid ViewIDCommitting) as [E2|E2]; split; cbn; auto.
 Qed.
 
@@ -131,7 +147,7 @@ Lemma tinv_jump s : tinv s -> tinv (jump_voting_round s).
 Proof. intros H. exact (tinv_increment s H). Qed.
 
 Lemma tinv_shift s voted : tinv (shift_voting_to_committing s voted).
-Proof. unfold tinv, tok, shift_voting_to_committing. cbn. split; reflexivity. Qed.
+Proof. unfold tinv, tok. split; reflexivity. Qed.
 
 Lemma tinv_check_voting s s' : tinv s -> check_voting_precommit_shift s = Ok s' -> tinv s'.
 Proof.
@@ -196,7 +212,7 @@ Qed.
 
 Lemma tinv_merged kind s vid h r ups : tinv s -> tinv (merged kind s vid h r ups).
 Proof.
-  intros H. unfold merged.
+  intros H. unfold merged. cbv zeta.
   match goal with |- tinv (ev_w (log_w (set_rounds ?s1 _) _) _) => change (tinv s1) end.
   apply put_view_tinv; [exact H|]. intros Hne. apply tok_bump.
   pose proof (get_view_tok s vid Hne H) as Hv.
@@ -385,7 +401,8 @@ Proof.
   intros _ _ Hr v Hv.
   pose proof (reachable_tinv _ _ _ (reachable_b_reachable _ _ _ Hr)) as [Tv Tn].
   assert (T : tok v) by (destruct Hv as [->| ->]; assumption).
-  unfold tok in T. cbv zeta. rewrite !set_powers_eq, T. cbn. repeat split.
+  unfold tok in T. cbv zeta. rewrite !set_powers_eq, T.
+  cbn [sm_tpv sm_tpc sm_pvp sm_pcp sm_mpv sm_mpc sm_avail summary_of]. repeat split.
 Qed.
 
 (** * Part C: what makes a vote operation change the round *)
@@ -557,7 +574,7 @@ Proof.
   rewrite <- Hp. clear Hp vp0 vpl.
   destruct (find_view _ _ _) as [[vid st]|] eqn:Hfv; [|discriminate].
   destruct (st =? ViewFuture) eqn:Hfut.
-  { apply N.eqb_eq in Hfut. subst st. cbn [negb N.eqb ViewFuture ViewFound].
+  { apply N.eqb_eq in Hfut. subst st. change (ViewFuture =? ViewFound) with false. cbn [negb].
     intros E. left. split; [reflexivity|]. eapply handle_future_views; exact E. }
   destruct (st =? ViewFound) eqn:Hst; cbn [negb]; [|intros E; left; split; [reflexivity|eapply Hsame; exact E]].
   apply N.eqb_eq in Hst.
@@ -619,20 +636,20 @@ Proof.
     destruct Hvid as [->|[->| ->]]; cbn [N.eqb ViewIDVoting ViewIDNextRound ViewIDCommitting Pos.eqb];
       try (intros E; inversion E; subst; exfalso; apply Hstay; reflexivity).
     intros E. destruct (check_prevote_cases _ _ E) as [->|(Hcause & ->)]; [exfalso; apply Hstay; reflexivity|].
-    left. split; [apply (pos_jump ih ivs sm Hcm)|]. right; left. auto.
+    left. split; [apply (proj2 (pos_jump ih ivs sm Hcm))|]. right; left. auto.
   - (* precommit *)
     destruct Hvid as [->|[->| ->]]; cbn [N.eqb ViewIDVoting ViewIDNextRound ViewIDCommitting Pos.eqb];
       try (intros E; inversion E; subst; exfalso; apply Hstay; reflexivity).
     + intros E. destruct (check_voting_cases _ _ E) as [->|[(-> & Hcause)|(p & Hin & _ & ->)]].
       * exfalso; apply Hstay; reflexivity.
-      * left. split; [apply (pos_advance ih ivs sm Hcm)|]. left. auto.
+      * left. split; [apply (proj2 (pos_advance ih ivs sm Hcm))|]. left. auto.
       * exfalso. rewrite (pos_shift ih ivs sm p Hcm Hin) in Hh. lia.
     + intros E. destruct (check_next_round_cases _ _ E) as [->|(Hmin & [->|[(-> & Hnil)|(p & Hin & ->)]])].
       * exfalso; apply Hstay; reflexivity.
-      * left. split; [apply (pos_jump ih ivs sm Hcm)|]. right; right. auto.
+      * left. split; [apply (proj2 (pos_jump ih ivs sm Hcm))|]. right; right. auto.
       * right. pose proof (cinv_jump _ _ _ Hcm) as Hcj.
         destruct (pos_advance ih ivs _ Hcj) as [_ R2]. destruct (pos_jump ih ivs sm Hcm) as [_ R1].
-        rewrite R2, R1. auto.
+        rewrite R2, R1. repeat split; auto.
       * exfalso. pose proof (cinv_jump _ _ _ Hcm) as Hcj.
         rewrite (pos_shift ih ivs _ p Hcj Hin) in Hh. destruct (pos_jump ih ivs sm Hcm) as [H1 _].
         rewrite H1 in Hh. lia.
@@ -645,19 +662,26 @@ Definition plain_total (pows : list N) : N := fold_right N.add 0 pows.
 (** the guard of the exact statements (the Go code does not check it): the powers do not overflow uint64 *)
 Definition nowrap (pows : list N) : Prop := plain_total pows < two64.
 
+Lemma psum_cons pows a l : psum pows (a :: l) = pw pows a + psum pows l.
+Proof. reflexivity. Qed.
+
 Lemma psum_app pows a b : psum pows (a ++ b) = psum pows a + psum pows b.
-Proof. induction a as [|x a IH]; cbn; [reflexivity|]. unfold psum in IH. rewrite IH. lia. Qed.
+Proof.
+  induction a as [|x a IH]; [reflexivity|].
+  change ((x :: a) ++ b) with (x :: (a ++ b)). rewrite !psum_cons, IH. lia.
+Qed.
 
 Lemma psum_incl pows l : forall l', NoDup l ->
   (forall x, In x l -> pw pows x <> 0 -> In x l') -> psum pows l <= psum pows l'.
 Proof.
-  induction l as [|a l IH]; intros l' Hnd Hin; cbn; [lia|].
+  induction l as [|a l IH]; intros l' Hnd Hin; [change (psum pows []) with 0; lia|].
+  rewrite psum_cons.
   inversion Hnd as [|? ? Hna Hnd']; subst.
   destruct (N.eq_dec (pw pows a) 0) as [Hz|Hnz].
-  - rewrite Hz. cbn. apply IH; [exact Hnd'|]. intros x Hx. apply Hin. right; exact Hx.
+  - rewrite Hz. rewrite N.add_0_l. apply IH; [exact Hnd'|]. intros x Hx. apply Hin. right; exact Hx.
   - destruct (in_split a l' (Hin a (or_introl eq_refl) Hnz)) as (l1&l2&->).
-    rewrite psum_app. cbn. fold (psum pows l). fold (psum pows l2).
-    assert (psum pows l <= psum pows (l1 ++ l2)).
+    rewrite psum_app, psum_cons.
+    assert (H : psum pows l <= psum pows (l1 ++ l2)).
     { apply IH; [exact Hnd'|]. intros x Hx Hpx.
       specialize (Hin x (or_intror Hx) Hpx). apply in_app_or in Hin as [H|[H|H]].
       - apply in_or_app; left; exact H.
@@ -686,18 +710,19 @@ Proof.
   apply psum_incl; [exact Hnd|]. intros x _ Hx.
   apply in_map_iff. exists (N.to_nat x). split; [apply Nnat.N2Nat.id|].
   apply in_seq. split; [lia|]. cbn. unfold pw, nth_n in Hx.
-  destruct (nth_error pows (N.to_nat x)) eqn:E; [|contradiction].
+  destruct (nth_error pows (N.to_nat x)) eqn:E; [|exfalso; apply Hx; reflexivity].
   apply nth_error_Some. congruence.
 Qed.
 
 Lemma idx_fold_plain pows l : forall a, a + psum pows l < two64 ->
   fold_left (fun a i => match nth_n pows i with Some p => wrap64 (a + p) | None => a end) l a = a + psum pows l.
 Proof.
-  induction l as [|i l IH]; intros a Ha; cbn [fold_left psum fold_right] in *; [lia|].
-  fold (psum pows l) in *. unfold pw in *. destruct (nth_n pows i) as [p|].
-  - assert (Hw : wrap64 (a + p) = a + p) by (unfold wrap64; apply N.mod_small; lia).
-    rewrite Hw, IH; lia.
-  - rewrite IH; lia.
+  induction l as [|i l IH]; intros a Ha.
+  - change (psum pows []) with 0. cbn [fold_left]. lia.
+  - rewrite psum_cons in *. cbn [fold_left]. unfold pw in *. destruct (nth_n pows i) as [p|].
+    + assert (Hw : wrap64 (a + p) = a + p) by (unfold wrap64; apply N.mod_small; lia).
+      rewrite Hw, IH; lia.
+    + rewrite IH; lia.
 Qed.
 
 Lemma idx_power_plain pows l : nowrap pows -> NoDup l -> idx_power pows l = psum pows l.
@@ -706,13 +731,17 @@ Proof.
   pose proof (psum_le_total pows l Hnd). unfold nowrap in Hw. lia.
 Qed.
 
+Lemma plain_total_cons p l : plain_total (p :: l) = p + plain_total l.
+Proof. reflexivity. Qed.
+
 Lemma sum_fold_plain l : forall a, a + plain_total l < two64 ->
   fold_left (fun a p => wrap64 (a + p)) l a = a + plain_total l.
 Proof.
-  induction l as [|p l IH]; intros a Ha; cbn [fold_left plain_total fold_right] in *; [lia|].
-  fold (plain_total l) in *.
-  assert (Hw : wrap64 (a + p) = a + p) by (unfold wrap64; apply N.mod_small; lia).
-  rewrite Hw, IH; lia.
+  induction l as [|p l IH]; intros a Ha.
+  - change (plain_total []) with 0. cbn [fold_left]. lia.
+  - rewrite plain_total_cons in *. cbn [fold_left].
+    assert (Hw : wrap64 (a + p) = a + p) by (unfold wrap64; apply N.mod_small; lia).
+    rewrite Hw, IH; lia.
 Qed.
 
 Lemma sum_pows_plain pows : nowrap pows -> sum_pows pows = plain_total pows.
@@ -749,8 +778,9 @@ Qed.
 
 Lemma sort_n_perm l : Permutation (sort_n l) l.
 Proof.
-  induction l as [|x l IH]; cbn; [reflexivity|].
-  fold (sort_n l). rewrite insert_n_perm. constructor. exact IH.
+  induction l as [|x l IH]; [reflexivity|].
+  change (sort_n (x :: l)) with (insert_n x (sort_n l)).
+  rewrite insert_n_perm. constructor. exact IH.
 Qed.
 
 Lemma NoDup_sort_n l : NoDup l -> NoDup (sort_n l).
@@ -771,7 +801,8 @@ Proof.
   intros Hw Hin. rewrite total_power_plain by exact Hw.
   rewrite (idx_power_plain pows (nodup_n S) Hw (NoDup_nodup_n S)).
   apply psum_incl; [apply NoDup_sort_n, NoDup_nodup_n|].
-  intros x Hx _. apply in_nodup_n, Hin. apply in_sort_n in Hx. apply in_nodup_n in Hx. exact Hx.
+  intros x Hx _. apply in_nodup_n, Hin. apply in_sort_n in Hx. unfold signer_set in Hx.
+  apply in_nodup_n in Hx. exact Hx.
 Qed.
 
 Lemma proof_power_le_total pows pm t p : nowrap pows -> In (t, p) pm ->
@@ -780,7 +811,7 @@ Proof.
   intros Hw Hin. unfold proof_power, proof_idxs.
   rewrite (idx_power_plain pows _ Hw (NoDup_nodup_n _)), total_power_plain by exact Hw.
   apply psum_incl; [apply NoDup_nodup_n|]. intros x Hx _.
-  apply in_sort_n, in_nodup_n. apply in_nodup_n in Hx.
+  apply in_sort_n. unfold signer_set. apply in_nodup_n. apply in_nodup_n in Hx.
   unfold signer_list. apply in_flat_map. exists (t, p). split; [exact Hin|exact Hx].
 Qed.
 
@@ -812,9 +843,9 @@ Proof.
   intros [Hpv Hpc] [H|H]; unfold signer_list in H; apply in_flat_map in H as ([t p]&Hin&Hi);
     cbn [snd] in Hi; apply in_map_iff in Hi as ([j sg]&Hj&Hsg); cbn [fst] in Hj; subst j.
   - destruct (Hpv t p Hin i sg Hsg) as (key&Hk&->).
-    exists key, KPrevote, t, p. repeat split; auto.
+    exists key, KPrevote, t, p. split; [exact Hk|]. split; [left; reflexivity|]. split; [exact Hin|exact Hsg].
   - destruct (Hpc t p Hin i sg Hsg) as (key&Hk&->).
-    exists key, KPrecommit, t, p. repeat split; auto.
+    exists key, KPrecommit, t, p. split; [exact Hk|]. split; [right; reflexivity|]. split; [exact Hin|exact Hsg].
 Qed.
 
 Lemma mnr_le_n n : 1 <= n -> mnr n <= n.
@@ -859,9 +890,10 @@ Proof.
   assert (Hall : forall v, (v = k_vot sm \/ v = k_nxt sm) ->
             total_power pows (v_pv v) < mnr (sum_pows pows) /\ total_power pows (v_pc v) < mnr (sum_pows pows)).
   { intros v Hvv. assert (Hav_v : auth_view v) by (destruct Hvv as [->| ->]; assumption).
-    split; (eapply N.le_lt_trans; [apply (total_le_set pows _ S Hw)|exact Hpow]);
-      intros i Hi; apply HS; [destruct Hvv as [->| ->]; [left|right]; apply signer_genuine; auto
-                             |destruct Hvv as [->| ->]; [left|right]; apply signer_genuine; auto]. }
+    assert (HinS : forall i, In i (signer_list (v_pv v)) \/ In i (signer_list (v_pc v)) -> In i S).
+    { intros i Hi. apply HS. destruct Hvv as [->| ->]; [left|right]; apply signer_genuine; assumption. }
+    split; (eapply N.le_lt_trans;
+             [apply (total_le_set pows _ S Hw); intros i Hi; apply HinS; auto|exact Hpow]). }
   destruct (Hall _ (or_introl eq_refl)) as [_ Fvc]. destruct (Hall _ (or_intror eq_refl)) as [Fnv Fnc].
   assert (Etpc : sm_tpc (v_sum (k_vot sm)) = total_power pows (v_pc (k_vot sm))) by (rewrite Tv; reflexivity).
   assert (Epcp : sm_pcp (v_sum (k_vot sm)) = blocks pows (v_pc (k_vot sm))) by (rewrite Tv; reflexivity).
@@ -961,7 +993,7 @@ Proof.
   pose proof (reachable_tinv _ _ _ (reachable_b_reachable _ _ _ Hreach)) as Ht.
   destruct (minority_only_merges _ _ _ _ _ _ _ _ _ _ _ Hk Hc Ha Ht Hstep Hmp Hw Hmn HS Hpow) as [E Pk].
   destruct (merge_point_inv _ _ _ _ _ Hk Hmp) as (F&_). destruct (frame_pos _ _ F) as (Ph&Pr&_).
-  subst s'. auto.
+  subst s'. repeat split; auto.
 Qed.
 
 (** a vote message that reaches no merge point leaves the three views as they are *)
